@@ -21,7 +21,7 @@ def classify(iToken, lObjects):
     iCurrent = utils.assign_next_token(token.instantiation_label, iToken, lObjects)
 
     while utils.is_next_token(",", iCurrent, lObjects):
-        iCurrent = utils.assign_next_token_required(",", token.comma, iToken, lObjects)
-        iCurrent = utils.assign_next_token(token.instantiation_label, iToken, lObjects)
+        iCurrent = utils.assign_next_token_required(",", token.comma, iCurrent, lObjects)
+        iCurrent = utils.assign_next_token(token.instantiation_label, iCurrent, lObjects)
 
     return iCurrent
